@@ -58,8 +58,8 @@ CLI_CLAIMED = {
          "(crashing worker via the fault point; verification failure via --verify --sort-requires).",
          "G(MC_CliFiles)->R->V(Cli!FinalFails, write mode)", "5 C14"),
  "C19": ("The accesses to the exit status are extracted per thread role from a free run of the CURRENT binary; TLC enumerates every interleaving of them with every arrival order of results (ExitCode.tla, invariant StatusTruthful, "
-         "liveness Terminates) and each interleaving is forced on the real binary through the hook scheduler; plus free-running --num-threads 1..16 sweeps (mixed outcomes; directories with different indent settings, so that nothing a worker formatted earlier leaks into the next file) and the C13/C14 scenario space under several thread counts.",
-         "TLC model ExitCode (all interleavings) replayed as forced schedules + trace validation", "5 C19"),
+         "liveness Terminates) and each interleaving is forced on the real binary through the hook scheduler; when every recorded access is store(2), fetch_max(1) or load, the theorem ExitCodeProof!Safety (status = maximum of what was reported, for ANY number of files and threads; 17 TLAPS obligations, also exhaustive in TLC since the state space is finite) applies and is re-proved by the check; plus free-running --num-threads 1..16 sweeps (mixed outcomes; directories with different indent settings, so that nothing a worker formatted earlier leaks into the next file) and the C13/C14 scenario space under several thread counts.",
+         "TLC model ExitCode (all interleavings) replayed as forced schedules + trace validation; TLAPS proof ExitCodeProof (unbounded) under a vocabulary assumption checked against the recorded accesses", "5 C19"),
  "C15": ("Exhaustive within the deviation budget: every placement of <= 2 (thorough: 3) configuration files (stylua.toml / .stylua.toml / both, .editorconfig with/without root) on a spine of 5 directories around the working directory "
          "and in the four XDG/HOME locations, x option sets (--config-path, --search-parent-directories, --no-editorconfig, a command-line override) x target sets including several targets in one run (memo interaction), a directory, stdin with/without "
          "--stdin-filepath. Every file carries a distinct indent width, so the applied configuration is read off the output and judged by ConfigSearch!Resolve; the memoised search is transcribed (ImplHistory) and TLC checks it refines Resolve for every history.",
